@@ -88,6 +88,8 @@ THEOREMS = [
     "VK.C08_stv_rep",
     "VK.rankedWF_removeCand",
     "VK.C08_alaska_rep",
+    "VK.C08_random_dictator_rep",
+    "VK.C08_boosted_rep",
 ]
 RULE = ("cases = deterministic configuration of every ranking / scoring / pairwise rule (as in C10) on a random profile; "
         "five transformations of the input: rename the candidates by a random bijection into a second name pool (sort "
